@@ -51,6 +51,8 @@ pub use crate::connection::{
 };
 #[cfg(feature = "qlog")]
 pub use connection::qlog::QlogStream;
+#[cfg(feature = "verif")]
+pub use connection::{VerifProbe, VerifStreams};
 
 #[cfg(feature = "rustls")]
 pub use rustls;
